@@ -237,6 +237,9 @@ func runC14(c *core.Ctx) {
 			}
 			// disjoint suffixes: Y on the copy, the remaining ops on A; the copy must equal a sequential replay
 			hy := newHistGen(c, rr, mA, specA, pattern, 30)
+			hy.budget = h.budget // the copy holds weight drawn under h's budget
+			hy.budget.Charge(h.running)
+			hy.running = h.running
 			hy.exact = exact
 			hy.anySpec = true
 			opsY := hy.gen(rr.Range(1, 12))
@@ -351,6 +354,7 @@ func runC15(c *core.Ctx) {
 		}
 		// H2 on another index range
 		h2 := newHistGen(c, r, m, specX, p2, randSigmaIdx(r, 300))
+		h2.budget = h1.budget // X goes on with H1 after H2 in the next cycle: one budget for the whole case
 		h2.exact, h2.anySpec, h2.sameTarget = exact, true, true
 		h2.weights[opClear] = 0
 		heavy := r.P(0.3)
@@ -413,6 +417,7 @@ func runC15(c *core.Ctx) {
 		}
 		h1.pool = h2.pool // next cycle's H1 continues in H2's range
 		h1.spec = specX
+		h1.running = h2.running
 	}
 	if nontrivial {
 		c.NonTrivial()
